@@ -169,6 +169,8 @@ def validate(ctx, events, mode, name, default=2, policyok=("p1", "p2", "p3")):
         e.pop("err", None)
         e.pop("policyok", None)
         e.pop("via", None)
+        e.pop("master", None)
+        e.pop("master_hits", None)
         e.setdefault("admknown", True)
         e.pop("seq", None)
         e.pop("ts", None)
@@ -330,7 +332,8 @@ def judge(ctx, scenarios, results, events, name, default_prop):
         idle = next((e for e in reversed(evs) if e["ev"] == "idle"), None)
         mode = MODE_NAME.get(sc["mode"], "remote")
         key = (mode, tuple(reset.get("policyok") or ("p1", "p2", "p3")), sc.get("default", 2))
-        groups.setdefault(key, []).extend(evs)
+        if not sc.get("novalidate"):      # (two agents in one process share the hook sink: their events cannot be told apart)
+            groups.setdefault(key, []).extend(evs)
         # ---- expectations outside the trace spec
         if idle is None:
             ctx.inconclusive.append("scenario %s produced no idle event" % sc["name"])
@@ -344,6 +347,13 @@ def judge(ctx, scenarios, results, events, name, default_prop):
             if bad:
                 ctx.violation(sc.get("expect_prop", default_prop), sc.get("expect_key", "idle-expectation") ,
                               "scenario %s: user %s at idle: %s (got, wanted)" % (sc["name"], u, bad))
+        for u, want in (sc.get("expect_master") or {}).items():
+            got = (idle.get("master") or {}).get(u, {})
+            bad = {k: (got.get(k), v) for k, v in want.items() if got.get(k) != v}
+            if bad:
+                ctx.violation(sc.get("expect_prop", default_prop), sc.get("expect_key_master", "master-expectation"),
+                              "scenario %s: user %s on the master at idle: %s (got, wanted); master served %s requests" % (
+                                  sc["name"], u, bad, idle.get("master_hits")))
         if sc.get("expect_unchanged") and idle.get("dirsha") != reset.get("dirsha"):
             ctx.violation(sc.get("expect_prop", default_prop), sc.get("expect_key", "directory-changed"),
                           "scenario %s: the store directory changed byte-wise although it must not" % sc["name"])
